@@ -61,4 +61,14 @@ CHECKS = {
             {"part": "discovery", "test": "TestDiscovery", "quick": {"checks": 640, "shards": 16}, "thorough": {"checks": 25000, "shards": 16, "timeout": 3000}},
         ],
     },
+    "C06": {
+        "pkg": "c06",
+        "aux_builds": [{"pkg": "./cmd/vhook", "out": "vhook"}],
+        "technique": "property-based testing (rapid): generated hook sets loaded by the real hook manager / operator, execution order compared with the order computed from the generated set",
+        "level_text": "Random hook sets (many equal onStartup orders, > 12 hooks) through the real hook manager; order of onStartup hooks compared with (order, path). Search, not proof.",
+        "level_note": "Trusted: scripted hook executable and its log.",
+        "parts": [
+            {"part": "hookmgr", "test": "TestStartupOrder", "quick": {"checks": 320, "shards": 16}, "thorough": {"checks": 16000, "shards": 16, "timeout": 3000}},
+        ],
+    },
 }
